@@ -52,6 +52,8 @@ type Config struct {
 	ScaleInWatch     bool           `json:"scale_in_watch,omitempty"`
 	// FaultOnlyStatus: faults are drawn only for status writes (and then often)
 	FaultOnlyStatus bool `json:"fault_only_status,omitempty"`
+	// LateResultChan (watchsim): the consumer fetches the result channel at its first read.
+	LateResultChan bool `json:"late_result_chan,omitempty"`
 	// StatusOutage: every status write fails until the chaos phase ends.
 	StatusOutage bool `json:"status_outage,omitempty"`
 	// UnpauseAtQuiesce: the user lifts every pause before the quiesce phase, so
